@@ -2276,6 +2276,15 @@ impl XmlElement {
 
         for attribute in value.attributes.as_slice() {
             let attr = XmlAttribute::node(attribute, element_id, context)?;
+            let duplicated = element.borrow().attributes.iter().any(|v| {
+                let a = v.as_attribute().unwrap();
+                let b = attr.as_attribute().unwrap();
+                let equal = equal_qname(a.borrow().qname(), b.borrow().qname());
+                equal
+            });
+            if duplicated {
+                return Err(error::Error::InvalidData(format!("{}", attr)));
+            }
             element.borrow_mut().push_attribute(attr);
         }
 
